@@ -70,9 +70,19 @@ def stmt_lines(s):
     raise ValueError(s)
 
 
+def gated(prog) -> bool:
+    return any(t >= 0 for t in prog.get("gates") or [])
+
+
 def lines_of(prog):
+    """-> (head, setup, body) source lines; body lines are relative to the `while True:` block"""
     stmts = prog["setup"] + prog["body"]
-    head = ["from Reduino.Communication import SerialMonitor", "mon = SerialMonitor(9600)"]
+    head = ["from Reduino.Communication import SerialMonitor"]
+    if gated(prog):
+        head += ["from Reduino.Sensors import Potentiometer"]
+    head += ["mon = SerialMonitor(9600)"]
+    if gated(prog):
+        head += ['p = Potentiometer("A0")']
     if any(s[0] == 6 for s in stmts):
         head += ["def f(xs, k):", "    return xs[k]"]
     if any(s[0] == 7 for s in stmts):
@@ -80,7 +90,16 @@ def lines_of(prog):
     if any(s[0] in (6, 7) for s in stmts):
         head += ["r = 0"]
     setup = [ln for s in prog["setup"] for ln in stmt_lines(s)]
-    body = ['mon.write("-")'] + [ln for s in prog["body"] for ln in stmt_lines(s)]
+    body = ['mon.write("-")']
+    if gated(prog):
+        body.append("c = p.read()")
+        for s, t in zip(prog["body"], prog["gates"]):
+            if t < 0:
+                body += stmt_lines(s)
+            else:
+                body += [f"if c > {t}:"] + ["    " + ln for ln in stmt_lines(s)]
+    else:
+        body += [ln for s in prog["body"] for ln in stmt_lines(s)]
     return head, setup, body
 
 
@@ -89,7 +108,13 @@ def script_of(prog) -> str:
     return "\n".join(head + setup + ["while True:"] + ["    " + ln for ln in body]) + "\n"
 
 
+def mock_input(prog) -> str:
+    return ("ar 14 " + " ".join(str(v) for v in prog["gvals"]) + "\n") if gated(prog) else ""
+
+
 def wire_of(prog):
+    if gated(prog):
+        return [1, prog["setup"], prog["body"], prog["gates"], prog["gvals"]]
     return [0, prog["setup"], prog["body"], prog["N"]]
 
 
@@ -112,12 +137,16 @@ def nvars(part):
 
 
 def combine(parts, N):
-    setup, body, off = [], [], 0
+    setup, body, gates, off = [], [], [], 0
+    gvals = None
     for p in parts:
         setup += rename(p["setup"], off)
         body += rename(p["body"], off)
+        gates += list(p.get("gates") or [-1] * len(p["body"]))
+        if p.get("gvals"):
+            gvals = p["gvals"]
         off += nvars(p)
-    return {"setup": setup, "body": body, "N": N}
+    return {"setup": setup, "body": body, "N": N, "gates": gates, "gvals": gvals or [0] * N}
 
 
 def guard_py(prog) -> bool:
@@ -198,9 +227,12 @@ def sim(prog):
         for s in prog["setup"]:
             ex(s)
         lives.append(live())
-        for _ in range(prog["N"]):
-            for s in prog["body"]:
-                ex(s)
+        gates = prog.get("gates") or [-1] * len(prog["body"])
+        gv = prog.get("gvals") or [0] * prog["N"]
+        for k in range(prog["N"]):
+            for s, t in zip(prog["body"], gates):
+                if t < gv[k]:
+                    ex(s)
             lives.append(live())
     except (IndexError, ValueError, KeyError):
         return None
@@ -258,14 +290,21 @@ def gen_use(rng, stmts, names, allow=(3, 4, 5, 6, 2)):
     return [2, x, x]
 
 
-def gen_guard_part(rng, N, balanced):
-    for _ in range(30):
+GPATTERNS = [[2, 0, 3, 1], [0, 3, 3, 0], [1, 1, 2, 0]]
+GATES = [-1, -1, 0, 1, 2]
+
+
+def gen_guard_part(rng, N, balanced, pattern=None):
+    """pattern: None = ungated, else the per-pass run-time values the gates `if c > t:` are compared with"""
+    def gate():
+        return rng.choice(GATES) if pattern is not None else -1
+    for _ in range(40):
         nv = rng.choice([1, 1, 2, 3])
         names = list(range(nv))
         setup = [gen_decl(rng, x) for x in names]
         for _ in range(rng.randint(0, 4)):
             setup.append(gen_use(rng, setup, names))
-        body = []
+        body, gates = [], []
         if balanced:
             fresh = 100
             for _ in range(rng.randint(1, 3)):
@@ -279,16 +318,21 @@ def gen_guard_part(rng, N, balanced):
                     pair = [[3, x, fresh], [4, x, fresh]]
                 pos = rng.randint(0, len(body))
                 body[pos:pos] = pair
+                t = gate()
+                gates[pos:pos] = [t, t]
             for _ in range(rng.randint(0, 3)):
                 pos = rng.randint(0, len(body))
                 body.insert(pos, gen_use(rng, setup + body[:pos], names, allow=(5, 6, 2, 5)))
+                gates.insert(pos, gate())
         else:
             for _ in range(rng.randint(1, 5)):
                 body.append(gen_use(rng, setup + body, names))
-        part = {"setup": setup, "body": body, "N": N, "kind": "guard-balanced" if balanced else "guard-free"}
+                gates.append(gate())
+        kind = ("guard-balanced" if balanced else "guard-free") + ("-gated" if pattern is not None else "")
+        part = {"setup": setup, "body": body, "N": N, "kind": kind, "gates": gates, "gvals": pattern}
         if sim(part) is not None:
             return part
-    return {"setup": [[0, 0, [1, 2]]], "body": [[5, 0, -1]], "N": N, "kind": "guard-fallback"}
+    return {"setup": [[0, 0, [1, 2]]], "body": [[5, 0, -1]], "N": N, "kind": "guard-fallback", "gates": [-1], "gvals": pattern}
 
 
 def gen_index_error_part(rng, N):
@@ -307,6 +351,8 @@ def gen_index_error_part(rng, N):
     n = len(env[x])
     i = rng.choice([n, n, n + 1, -n - 1, -n - 5, -n - 6, n + 3])
     seq.insert(pos, [rng.choice([5, 5, 6]), x, i])
+    if where == "body":
+        part["gates"].insert(pos, -1)
     part["kind"] = "index-error"
     return part
 
@@ -433,7 +479,8 @@ def run_all(progs):
     jobs = []
     for p in progs:
         head, setup, body = lines_of(p)
-        jobs.append({"head": head, "setup": setup, "body": body, "N": p["N"]})
+        jobs.append({"head": [ln for ln in head if "Potentiometer" not in ln], "setup": setup, "body": body, "N": p["N"],
+                     "gvals": p["gvals"] if gated(p) else None})
     pys = []
     for i in range(0, len(jobs), 400):
         pys += C.run_impl("c09_impl.py", {"jobs": jobs[i:i + 400]})
@@ -442,7 +489,7 @@ def run_all(progs):
     sk, where = [], []
     for n, (p, t) in enumerate(zip(progs, trs)):
         if t.get("ok"):
-            sk.append({"cpp": t["cpp"], "loops": p["N"], "env": {"REDU_HEAP": "1"}, "run_timeout": 60})
+            sk.append({"cpp": t["cpp"], "loops": p["N"], "env": {"REDU_HEAP": "1"}, "run_timeout": 60, "input": mock_input(p)})
             where.append(n)
     res = [None] * len(progs)
     for n, r in zip(where, fw.run_sketches(sk, san=True)):
@@ -482,7 +529,7 @@ def oracle(prog, res):
 
 
 def public(prog):
-    return {"setup": prog["setup"], "body": prog["body"], "N": prog["N"]}
+    return {"setup": prog["setup"], "body": prog["body"], "N": prog["N"], "gates": prog.get("gates"), "gvals": prog.get("gvals")}
 
 
 def reduce_failure(case, key):
@@ -564,7 +611,8 @@ def run(ctx: C.Ctx):
     parts = []
     n_guard = 800 if thorough else 110
     for i in range(n_guard):
-        parts.append(gen_guard_part(rng, N, balanced=(i % 3 != 2)))
+        pattern = None if i % 2 == 0 else GPATTERNS[(i // 2) % len(GPATTERNS)]
+        parts.append(gen_guard_part(rng, N, balanced=(i % 3 != 2), pattern=pattern))
     for i in range(300 if thorough else 24):
         p = gen_index_error_part(rng, N)
         if p:
@@ -608,11 +656,19 @@ def run(ctx: C.Ctx):
         else:
             in_var.append(p)
     cases = []
-    for group, fam in ((in_const, "batch-in-guard-constant-live-data"), (in_var, "batch-in-guard-varying-live-data"),
-                       (in_exc, "batch-in-guard-python-raises"), (out_g, "batch-outside-guard")):
-        for i in range(0, len(group), BATCH):
-            chunk = group[i:i + BATCH]
-            cases.append({"prog": combine(chunk, N), "parts": chunk, "family": fam})
+    for group0, fam in ((in_const, "batch-in-guard-constant-live-data"), (in_var, "batch-in-guard-varying-live-data"),
+                        (in_exc, "batch-in-guard-python-raises"), (out_g, "batch-outside-guard")):
+        # one potentiometer per sketch: parts of a batch share the per-pass run-time values
+        pats = []
+        for p in group0:
+            k = tuple(p["gvals"]) if p.get("gvals") else None
+            if k not in pats:
+                pats.append(k)
+        for k in pats:
+            group = [p for p in group0 if (tuple(p["gvals"]) if p.get("gvals") else None) == k]
+            for i in range(0, len(group), BATCH):
+                chunk = group[i:i + BATCH]
+                cases.append({"prog": combine(chunk, N), "parts": chunk, "family": fam + ("-gated" if k else "")})
     for p in single:
         cases.append({"prog": combine([p], N), "parts": [p], "family": "single-" + p["kind"].split("-")[0]})
 
@@ -624,7 +680,7 @@ def run(ctx: C.Ctx):
           "model_fw_safe": 0, "model_fw_unsafe": {"out-of-bounds": 0, "use-after-free": 0, "double-free": 0},
           "fw_reports": {"clean": 0, "out-of-bounds": 0, "use-after-free": 0, "double-free": 0, "other": 0},
           "oob_not_detected_by_asan": 0, "py_exceptions": {}, "in_guard_py_ok": 0, "phases_compared": 0,
-          "leak_pairs_checked": 0, "stmt_kinds": {}, "prints_compared": 0}
+          "leak_pairs_checked": 0, "stmt_kinds": {}, "prints_compared": 0, "gated_statements": 0, "gated_sketches": 0}
     for p in parts:
         st["part_kinds"][p["kind"]] = st["part_kinds"].get(p["kind"], 0) + 1
     distinct = set()
@@ -638,6 +694,8 @@ def run(ctx: C.Ctx):
         for s in prog["setup"] + prog["body"]:
             st["stmt_kinds"][str(s[0])] = st["stmt_kinds"].get(str(s[0]), 0) + 1
         g = guard_py(prog)
+        st["gated_statements"] += sum(1 for t in prog["gates"] if t >= 0)
+        st["gated_sketches"] += gated(prog)
         py = res["py"]
         for q in py.get("phases", []):
             if "exc" in q:
@@ -737,7 +795,7 @@ def run(ctx: C.Ctx):
         for p in case["parts"]:
             if len(p["body"]) + len(p["setup"]) > 2:
                 distinct.add(json.dumps([p["setup"], p["body"]]))
-        if len(samples) < 3 and case["family"] in ("batch-in-guard-constant-live-data", "single-outside", "single-index"):
+        if len(samples) < 3 and case["family"] in ("batch-in-guard-constant-live-data-gated", "single-outside", "single-index"):
             if not any(s["family"] == case["family"] for s in samples):
                 samples.append({"family": case["family"], "script": res["script"][:1800]})
 
@@ -758,7 +816,9 @@ def run(ctx: C.Ctx):
                 "pairs, rotations: live data constant from pass to pass) or free (growing / shrinking); (b) the same with one index "
                 "just outside the range (len, len+1, len+3, -len-1, -len-5, -len-6) somewhere in setup or body; (c) programs outside the guard: "
                 "`b = a` aliases used after the other name appends / removes, re-assignment from literals and comprehensions, lists local "
-                "to the main loop, struct copies local to loop(), a callee mutating its by-value list parameter; (d) every statement "
+                "to the main loop, struct copies local to loop(), a callee mutating its by-value list parameter; half of the (a) parts put "
+                "their loop statements under run-time conditions `if c > t:` (t in -1 (none), 0, 1, 2; c = analogRead per pass from 3 input "
+                "patterns), so that different passes execute different statement sequences (append/remove pairs share a gate); (d) every statement "
                 "sequence of length <= 2 (quick) / <= 3 (thorough) over a 13-statement boundary alphabet on l0 = [1, 2] as loop body. Every "
                 "part is classified by the model; parts it expects to run safely are batched 10 per sketch (disjoint names), the others "
                 "run one per sketch (quick tier: a seeded sample). evaluations = phases (setup + passes) of in-guard exception-free "
@@ -776,7 +836,7 @@ def run(ctx: C.Ctx):
                  "outside the guard still go through the correspondence (the model contains the defects).",
         "unmodelled": ["String element buffers and str indexing (Arduino String of the mock; abstracted as always-safe values)",
                        "C int overflow in __redu_list_from_range's counting loop; element type conversions (static_cast<T>)",
-                       "control flow around list statements (if / for / while inside the main loop): programs are straight-line per pass",
+                       "control flow other than `if <run-time value> > <const>:` around single list statements of the main loop (for / while / nested if / else); declarations inside conditionals",
                        "subscript stores `a[i] = v` (the transpiler drops the line: C07's domain; the model keeps list_set as a helper-level operation only)",
                        "allocator behaviour of the real AVR heap (fragmentation, new[] failure); out-of-bounds reads that ASan cannot see "
                        "(1-4 ints before the buffer fall into the mock counter's own header: counted in distribution.oob_not_detected_by_asan)",
